@@ -85,6 +85,36 @@ func c14Requests(sec *ref.PMTSection, pmtPID int, full bool) [][]int {
 	if n > 1 {
 		out = append(out, []int{pids[0], pids[1], pids[0]})
 	}
+	// 13-bit values that the section itself holds outside of its stream loop (PCR_PID, the low bits
+	// of program_number, the null PID): requested alone, next to a present PID and next to an absent one
+	for _, v := range c14HeaderValues(sec, pmtPID) {
+		out = append(out, []int{v}, []int{v, c14Absent[1]})
+		if n > 0 {
+			out = append(out, []int{pids[0], v}, append([]int{v}, pids...))
+		}
+	}
+	return out
+}
+
+func c14HeaderValues(sec *ref.PMTSection, pmtPID int) []int {
+	var out []int
+next:
+	for _, v := range []int{sec.PCRPID, int(sec.Program) & 0x1FFF, 0x1FFF} {
+		if v == 0 || v == pmtPID {
+			continue
+		}
+		for _, st := range sec.Streams {
+			if st.PID == v {
+				continue next
+			}
+		}
+		for _, o := range out {
+			if o == v {
+				continue next
+			}
+		}
+		out = append(out, v)
+	}
 	return out
 }
 
@@ -420,6 +450,9 @@ func c14BigRequests(sec *ref.PMTSection, pmtPID int) [][]int {
 		}
 	}
 	out = append(out, even, odd, firstHalf, pids[:n-1], append([]int{pmtPID}, odd...))
+	for _, v := range c14HeaderValues(sec, pmtPID) {
+		out = append(out, []int{v}, []int{pids[0], v}, []int{v, c14Absent[1]})
+	}
 	var nonEmpty [][]int
 	for i, l := range out {
 		if len(l) > 0 || i == 1 {
@@ -479,6 +512,90 @@ func c14GenBig(r *engine.Run, emit func(c14BigCase)) {
 	}
 }
 
+// ---- scenario "crc-collisions" ---------------------------------------------------------------------------
+
+type c14ForgeCase struct {
+	Variant int `json:"variant"`
+	First   int `json:"first_packet_payload"`
+}
+
+var c14ForgeMarker = []byte{0xF0, 0xF1, 0xF2, 0xF3}
+
+// c14ForgePair returns a PMT and a different PMT whose CRC_32 is the same 32-bit value (four free
+// bytes of a registration descriptor are solved for, see ref.ForgeCRC).
+func c14ForgePair(variant int) (a, b ref.PMTSection, ok bool) {
+	lang := ref.Desc{Tag: 0x0A, Body: []byte("eng\x00")}
+	free := ref.Desc{Tag: 0x05, Body: append([]byte(nil), c14ForgeMarker...)}
+	a = ref.PMTSection{Program: 1, Version: 4, CurrentNext: true, PCRPID: 0x101, ProgDescs: []ref.Desc{{Tag: 0x05, Body: []byte("ABCD")}},
+		Streams: []ref.Stream{{Type: 0x1B, PID: 0x101}, {Type: 0x0F, PID: 0x102, Descs: []ref.Desc{lang}}, {Type: 0x86, PID: 0x103}}}
+	switch variant {
+	case 0: // other stream types, free bytes in the program descriptor
+		b = ref.PMTSection{Program: 1, Version: 4, CurrentNext: true, PCRPID: 0x101, ProgDescs: []ref.Desc{free},
+			Streams: []ref.Stream{{Type: 0x24, PID: 0x101}, {Type: 0x81, PID: 0x102, Descs: []ref.Desc{lang}}, {Type: 0x86, PID: 0x103}}}
+	case 1: // other stream set, free bytes in a descriptor of the first stream
+		b = ref.PMTSection{Program: 1, Version: 4, CurrentNext: true, PCRPID: 0x101, ProgDescs: []ref.Desc{{Tag: 0x05, Body: []byte("ABCD")}},
+			Streams: []ref.Stream{{Type: 0x1B, PID: 0x101, Descs: []ref.Desc{free}}, {Type: 0x0F, PID: 0x104}}}
+	case 2: // free bytes in the last stream, other descriptors on the second
+		b = ref.PMTSection{Program: 1, Version: 4, CurrentNext: true, PCRPID: 0x101, ProgDescs: []ref.Desc{{Tag: 0x05, Body: []byte("ABCD")}},
+			Streams: []ref.Stream{{Type: 0x1B, PID: 0x101}, {Type: 0x0F, PID: 0x102, Descs: []ref.Desc{{Tag: 0x0A, Body: []byte("fra\x01")}, {Tag: 0x0E, Body: []byte{0xC1, 2, 3}}}}, {Type: 0x86, PID: 0x103, Descs: []ref.Desc{free}}}}
+	case 3: // next version of the same program, same size
+		b = a
+		b.Version = 5
+		b.ProgDescs = []ref.Desc{free}
+	default:
+		return a, b, false
+	}
+	ab := ref.PMTBytes(a, false)
+	bb := ref.PMTBytes(b, false)
+	off := bytes.Index(bb, c14ForgeMarker)
+	if off < 0 {
+		return a, b, false
+	}
+	msg := bb[:len(bb)-4]
+	crcA := ref.CRC32MPEG2(ab[:len(ab)-4])
+	if !ref.ForgeCRC(msg, off, crcA) {
+		return a, b, false
+	}
+	copy(free.Body, msg[off:off+4]) // the descriptor body is shared with b through the slice
+	nb := ref.PMTBytes(b, false)
+	return a, b, bytes.Equal(nb[len(nb)-4:], ab[len(ab)-4:]) && !bytes.Equal(nb, ab)
+}
+
+func c14CheckForge(c c14ForgeCase) engine.Result {
+	var res engine.Result
+	a, b, ok := c14ForgePair(c.Variant)
+	if !ok {
+		res.Failf("harness|crc-forgery-failed", "variant %d", c.Variant)
+		return res
+	}
+	pmtPID := 0x0100
+	lists := [][]int{{0x101}, {0x101, 0x102}, {0x102, 0x101}, {0x101, 0x102, 0x103}, {0x103}, {0x101, c14Absent[0]}, {0x104, 0x101}}
+	var sc c14Scratch
+	secs := []*ref.PMTSection{&a, &b, &a, &b, &b, &a}
+	type carried struct {
+		pkts [][188]byte
+		caps []int
+	}
+	var car [2]carried
+	for i, s := range []*ref.PMTSection{&a, &b} {
+		o := ref.CarryOpts{PID: pmtPID, CC0: 5, First: c.First}
+		car[i].pkts, car[i].caps = ref.CarrySection(o, c06Payload(0, ref.PMTBytes(*s, false), 1))
+	}
+	for _, l := range lists {
+		for _, s := range secs {
+			k := 0
+			if s == &b {
+				k = 1
+			}
+			reqs := c14MakeReqs(s, false, ref.Pointer(0), pmtPID, [][]int{l})
+			c14Filter(&res, "same-CRC_32-as-the-previous-PMT", car[k].pkts, car[k].caps, reqs, &sc)
+			res.Nontrivial++
+		}
+	}
+	res.Outcome(c.Variant, c.First)
+	return res
+}
+
 func init() {
 	engine.Register(&engine.Property{
 		ID: "C14", Title: "PMT filtering emits exactly the well-formed PMT of the selected streams", Level: "model_checking",
@@ -498,6 +615,18 @@ func init() {
 				Name: "large-pmt",
 				Rule: "case = section padded to section_length in {180,400,1021} (thorough: 14 lengths around the packet limits up to the maximal 1021; 1..~48 streams, last ES_info_length > 255) x 2 content variants (the second with PCR adaptation fields) x pointer_field {0,1,100} x last-packet style; per case every first-packet size 1..184 x second packet full/7 bytes x request lists (all, none/empty, absent, PAT PID, first, last, reversed pair, present+absent, every 5th single stream and its complement, even, odd, first half, all but last, PMT PID + odd); oracle as in 'filter'; non-trivial = each (case, split, request)",
 				Gen:  c14GenBig, Check: witnessEnum(c14CheckBig, witnessPSI), Batch: 1,
+			},
+			&engine.Enum[c14ForgeCase]{
+				Name: "crc-collisions",
+				Rule: "4 pairs of different well-formed PMTs (other stream types / other stream set / other descriptors / next version) whose CRC_32 fields hold the same 32-bit value (four free registration-descriptor bytes solved for over GF(2)) x first-packet payload {184, 100, 20}; per request list (7 lists) the call sequence A, B, A, B, B, A with that one list, every result judged as in 'filter' against the reference filter of the PMT actually passed in; all cases run in one worker (anything remembered between calls under the section's CRC_32 shows); non-trivial = each call",
+				Gen: func(r *engine.Run, emit func(c14ForgeCase)) {
+					for v := 0; v < 4; v++ {
+						for _, f := range []int{184, 100, 20} {
+							emit(c14ForgeCase{v, f})
+						}
+					}
+				},
+				Check: c14CheckForge, Batch: 64,
 			},
 		},
 	})
